@@ -1,5 +1,6 @@
 import ScpiVerif.Drv.Parse
 import ScpiVerif.Drv.ParseJudge
+import ScpiVerif.Drv.ParamJudge
 namespace ScpiVerif.Drv
 open ScpiVerif.Ctx
 
@@ -7,7 +8,8 @@ open ScpiVerif.Ctx
 def runParse (cfg : String) (inp : List String) (obs : List String) : Option Verdict := do
   let (mo, cmds) ← modelParse cfg inp
   let mode := inp.headD "P"
-  let rej := judgeParse mode cmds inp obs
+  let (ra, rb) := splitBar (obs.map (fun t => if t == "||" then "|" else t))
+  let rej := (judgeParse mode cmds inp obs ++ judgeParams cmds ra ++ (if mode == "P" then [] else judgeParams cmds rb)).eraseDups
   let tags := [mode] ++ parseTags obs
   pure { modelObs := " ".intercalate mo, rejects := rej, nontrivial := obs.any (fun t => t.startsWith "H" || t.startsWith "E"), tags }
 
